@@ -12,8 +12,8 @@ import common
 from framework import Case, Finding
 
 PROP = "C20"
-GENERATED = ['Selection', 'SrcPydantic', 'SrcDeps']  # generated files this check's tie depends on
-LEAN_MODULES = ["Properties.C20", "Properties.Prov.Pydantic", "Properties.Prov.Deps"]
+GENERATED = ['Selection', 'SrcPydantic', 'SrcDeps', 'PydHook']  # generated files this check's tie depends on
+LEAN_MODULES = ["Properties.C20", "Properties.Prov.Pydantic", "Properties.Prov.Deps", "Properties.CorePyd"]
 NEEDS_DTYPES = False
 RULE = (
     "all eight availability combinations of {numpy, torch, jax}, each in a fresh interpreter (a meta-path finder blocks the absent "
